@@ -42,38 +42,56 @@ impl FilterProtocol {
         &self,
         block_filters: packed::BlockFilters,
         limit: usize,
-    ) -> Vec<packed::Byte32> {
+    ) -> Result<Vec<packed::Byte32>, Status> {
         let start_number: BlockNumber = block_filters.start_number().unpack();
         let reader = GCSFilterReader::new(SipHasher24Builder::new(0, 0), M, P);
         let script_hashes = self
             .storage
             .get_scripts_hash(start_number + limit as BlockNumber);
-        block_filters
-            .filters()
-            .into_iter()
-            .take(limit)
-            .enumerate()
-            .filter_map(|(index, block_filter)| {
-                let mut input = Cursor::new(block_filter.raw_data());
-                if reader
-                    .match_any(&mut input, &mut script_hashes.iter().map(|v| v.as_slice()))
-                    .expect("GCSFilterReader#match_any should be ok")
-                {
-                    let block_hash = block_filters
-                        .block_hashes()
-                        .get(index)
-                        .expect("checked index");
+        let mut matched = Vec::new();
+        for (index, block_filter) in block_filters.filters().into_iter().take(limit).enumerate() {
+            let data = block_filter.raw_data();
+            // The filter data is provided by the peer. An element takes `P + 1` bits at least,
+            // so the count can be checked before the decoder multiplies it.
+            let is_count_valid = data.len() < 8 || {
+                let mut count = [0u8; 8];
+                count.copy_from_slice(&data[..8]);
+                let bits = (data.len() as u64 - 8) * 8;
+                u64::from_le_bytes(count) <= bits / (u64::from(P) + 1)
+            };
+            let mut input = Cursor::new(data);
+            let is_matched = if is_count_valid {
+                reader.match_any(&mut input, &mut script_hashes.iter().map(|v| v.as_slice()))
+            } else {
+                Err(std::io::ErrorKind::InvalidData.into())
+            };
+            let block_hash = block_filters
+                .block_hashes()
+                .get(index)
+                .expect("checked index");
+            match is_matched {
+                Ok(true) => {
                     info!("check_filters_data matched, block_hash: {:#x}", block_hash);
-                    Some(block_hash)
-                } else {
+                    matched.push(block_hash);
+                }
+                Ok(false) => {
                     trace!(
                         "check_filters_data not matched, block_hash: {:#x}",
-                        block_filters.block_hashes().get(index).expect("msg")
+                        block_hash
                     );
-                    None
                 }
-            })
-            .collect()
+                Err(err) => {
+                    let errmsg = format!(
+                        "failed to decode the block filter for block {} ({:#x}) since {}",
+                        start_number + index as BlockNumber,
+                        block_hash,
+                        err
+                    );
+                    return Err(StatusCode::BlockFilterDataIsUnexpected.with_context(errmsg));
+                }
+            }
+        }
+        Ok(matched)
     }
 
     fn should_ask(&self, immediately: bool) -> bool {
